@@ -10,6 +10,7 @@ import (
 	"fmt"
 	"os"
 	"path/filepath"
+	"runtime/pprof"
 	"strings"
 	"time"
 
@@ -73,7 +74,13 @@ func cmdRun(args []string) int {
 	params := fs.String("params", "", "k=v,k=v harness parameters")
 	trace := fs.Bool("trace", false, "trace")
 	initRun := fs.String("initrun", "", "extra package prefixes to initialise")
+	prof := fs.String("cpuprofile", "", "write cpu profile")
 	fs.Parse(args)
+	if *prof != "" {
+		f, _ := os.Create(*prof)
+		pprof.StartCPUProfile(f)
+		defer pprof.StopCPUProfile()
+	}
 	ov := map[string][]byte{}
 	addND(ov)
 	for _, f := range strings.Split(*file, ",") {
@@ -152,5 +159,3 @@ func printResult(r *interp.Result) {
 }
 
 var _ = time.Now
-
-func cmdCheck(args []string) int { return 2 }
